@@ -115,7 +115,8 @@ def run(C, R):
         for path in paths:
             if path.exit != 'return':
                 continue
-            root = (('P', 'wait_node'),)
+            from common import own_node_roots as _onr
+            root = (list(_onr(F, tw)) or [(('P', 'wait_node'),)])[0]
             k0 = path.facts.get(('discr', ('init', root + ('data', 'state'))))
             s0 = k0[1] if k0 and k0[0] == 'eq' else None
             pv = poll_variant(E, path)
